@@ -204,6 +204,11 @@ def hook_commits():
     return []
 
 
+ENLARGED = (' The enumerated space was enlarged during the build each time an independently seeded change was missed '
+            '(DESIGN.md 9.6 lists every added axis); the RULE text and the coverage block of the evidence file state the '
+            'alphabets and bounds of the run that produced it.')
+
+
 def main():
     checks = []
     for pid in ALL:
@@ -217,7 +222,7 @@ def main():
             'evidence_file': f'evidence/{pid}.json',
             'replay_cmd_template': f'./check {pid} --replay {{path}}',
             'engine': 'mcphot',
-            'level_claimed': {'category': cat, 'text': text, 'design_ref': ref},
+            'level_claimed': {'category': cat, 'text': text + ENLARGED, 'design_ref': ref + '; 9.6 (spaces added by seed waves a-e)'},
             'level_note': note,
             'technique': tech,
         })
@@ -240,7 +245,7 @@ def main():
             'serves_properties': sorted(CHECKS),
             'kind_free_text': 'hand-written bounded exhaustive explorer for Python: explicit-state BFS over histories '
                               'on the real objects (explorer.py), permutation-driven executor for schedules '
-                              '(schedules.py), full-product input enumeration (space.py), reference models (ref/)',
+                              '(schedules.py), full-product input enumeration inside each property module (props/), reference models (ref/)',
         }],
         'checks': checks,
         'not_applicable': na,
